@@ -17,7 +17,7 @@ PROP = "C11"
 
 
 def plan(tier, seed):
-    k = 30 if tier == "quick" else 600
+    k = 64 if tier == "quick" else 600
     shards = []
     for kind in ("event", "event_split_day", "cancel", "dividend", "oversize"):
         shards += [{"kind": kind, "seed": seed, "shard": i, "n": 150} for i in range(k)]
